@@ -182,17 +182,17 @@ fn catalogue() -> Vec<(&'static str, Vec<&'static str>, u64)> {
         ("PNCounterDSTHarness", vec!["calm", "moderate", "chaos"], 200),
         ("ORSetDSTHarness", vec!["calm", "moderate", "chaos"], 200),
         ("VectorClockDSTHarness", vec!["calm", "moderate", "chaos"], 200),
-        ("MultiNodeSimulation.broadcast", vec!["lossless", "lossy"], 120),
-        ("MultiNodeSimulation.partitioned", vec!["lossless", "lossy"], 120),
+        ("MultiNodeSimulation.broadcast", vec!["lossless", "lossy", "burst"], 120),
+        ("MultiNodeSimulation.partitioned", vec!["lossless", "lossy", "burst"], 120),
         ("run_partition_test", vec!["isolate_node", "split_brain", "asymmetric", "ring"], 50),
         ("DSTSimulation", vec!["new", "calm", "chaos"], 400),
         ("RedisDSTSimulation", vec!["zipfian", "uniform", "zipfian+chaos-faults"], 120),
         ("Simulation", vec!["reliable", "drop30", "partition"], 60),
-        ("SimulationHarness", vec!["script", "script+buggify", "script+eviction"], 200),
+        ("SimulationHarness", vec!["script", "script+buggify", "script+eviction", "script+lua-random"], 200),
         ("SimulationHarness.set-pick-script", vec!["spop+randomkey"], 200),
         ("SimulatedConnection", vec!["batched", "unbatched", "partial-reads", "partial-arrivals"], 120),
         ("PipelineSimulator", vec!["default", "odd-sizes"], 1),
-        ("StreamingDSTHarness", vec!["new", "calm", "moderate", "chaos"], 150),
+        ("StreamingDSTHarness", vec!["new", "calm", "moderate", "chaos", "tight-backpressure"], 150),
         ("CompactionDSTHarness", vec!["new", "calm", "aggressive", "chaos"], 150),
         ("WalDSTHarness", vec!["default", "baseline", "crash_only", "chaos"], 100),
         ("buggify", vec!["disabled", "calm", "moderate", "chaos"], 40),
@@ -428,6 +428,15 @@ fn run_case(h: &str, p: &str, s: u64, ops: u64) -> Dump {
             }
             let mut g = rng_from(s, 2021);
             let key = |g: &mut Rng| format!("k{}", g.gen_range(0..8));
+            if p == "burst" {
+                // more writes on one node than a shard's pending-delta queue holds, over many keys, before any gossip round
+                for i in 0..140u64 {
+                    m.execute(0, 0, Command::set(format!("b{}", i % 37), sds(&format!("w{}", i))));
+                }
+                m.gossip_round();
+                m.advance_time_ms(5);
+                m.gossip_round();
+            }
             for i in 0..n {
                 let node = g.gen_range(0..nodes);
                 match g.gen_range(0..20) {
@@ -465,6 +474,12 @@ fn run_case(h: &str, p: &str, s: u64, ops: u64) -> Dump {
             for k in 0..8 {
                 let k = format!("k{}", k);
                 let _ = writeln!(st, "{} => {:?} converged={}", k, m.get_all_values(&k), m.check_key_convergence(&k));
+            }
+            if p == "burst" {
+                for k in 0..37 {
+                    let k = format!("b{}", k);
+                    let _ = writeln!(st, "{} => {:?} converged={}", k, m.get_all_values(&k), m.check_key_convergence(&k));
+                }
             }
             d.sec("final.replicated", st);
             for nd in &m.nodes {
@@ -574,7 +589,19 @@ fn run_case(h: &str, p: &str, s: u64, ops: u64) -> Dump {
             d.sec("final", fin);
         }
         "SimulationHarness" | "SimulationHarness.set-pick-script" => {
-            let sc = script(s, ops, h.ends_with("set-pick-script"));
+            let mut sc = script(s, ops, h.ends_with("set-pick-script"));
+            if p == "script+lua-random" {
+                // several scripts that draw from math.random within one virtual millisecond (pipelined EVALs): every
+                // script run must be seeded from the simulation, not from the Lua VM's own start-up seed
+                let mut extra = vec![];
+                for (i, (t, client, _)) in sc.iter().enumerate().filter(|(i, _)| i % 5 == 0) {
+                    for j in 0..3u64 {
+                        extra.push((*t, *client, Command::Eval { script: format!("local r = math.random(1000000); redis.call('SET', KEYS[1], r); return r + {}", j), keys: vec![format!("rnd{}", i % 3)], args: vec![] }));
+                    }
+                }
+                sc.extend(extra);
+                sc.sort_by_key(|x| x.0);
+            }
             let mut b = ScenarioBuilder::new(s).with_start_epoch(1_700_000_000);
             if p == "script+buggify" {
                 b = b.with_buggify(0.3);
@@ -637,6 +664,7 @@ fn run_case(h: &str, p: &str, s: u64, ops: u64) -> Dump {
                 "new" => StreamingDSTConfig::new(s),
                 "calm" => StreamingDSTConfig::calm(s),
                 "moderate" => StreamingDSTConfig::moderate(s),
+                "tight-backpressure" => tight_backpressure(s),
                 _ => StreamingDSTConfig::chaos(s),
             };
             async_dst!(d, StreamingDSTHarness, c, n);
@@ -695,6 +723,17 @@ fn run_case(h: &str, p: &str, s: u64, ops: u64) -> Dump {
 /// The asynchronous persistence harnesses run in chunks (cut after operations 4, 8, 13, 20, 35 and n/2); with `pause_ms > 0` the driving thread really
 /// sleeps between the chunks (what a loaded machine or a stopped process does). A simulation that is a pure
 /// function of seed and configuration cannot tell the difference; one that consults the wall clock can.
+/// A streaming configuration in which the buffer really reaches the back-pressure threshold between flushes
+/// (the presets never do): whether a write is accepted or rejected must then still be a function of the seed.
+fn tight_backpressure(s: u64) -> StreamingDSTConfig {
+    let mut c = StreamingDSTConfig::calm(s);
+    c.write_buffer_config.backpressure_threshold_bytes = 600;
+    c.write_buffer_config.max_size_bytes = 100_000;
+    c.write_buffer_config.max_deltas = 100_000;
+    c.flush_probability = 0.04;
+    c
+}
+
 fn paced_dump(h: &str, p: &str, s: u64, ops: u64, pause_ms: u64) -> String {
     let n = ops as usize;
     // pauses early in the run (few segments, first compactions) and in the middle
@@ -731,6 +770,7 @@ fn paced_dump(h: &str, p: &str, s: u64, ops: u64, pause_ms: u64) -> String {
                 "new" => StreamingDSTConfig::new(s),
                 "calm" => StreamingDSTConfig::calm(s),
                 "moderate" => StreamingDSTConfig::moderate(s),
+                "tight-backpressure" => tight_backpressure(s),
                 _ => StreamingDSTConfig::chaos(s),
             }
         ),
